@@ -21,7 +21,7 @@ def run(c):
         srcp = os.path.join(d, "cases.src")
         if exs and os.path.exists(srcp):
             srcs = open(srcp).read().split("\n")
-            for k, exm in enumerate(exs[:5] + exs[5:400:13]):  # the first disagreements and a spread over the rest (often the first ones sit in dead code)
+            for k, exm in enumerate(exs[:5] + exs[5:400:5]):  # the first disagreements and a spread over the rest (often the first ones sit in dead code)
                 ln = exm.get("line", 0) - 1
                 if 0 <= ln < len(srcs) and srcs[ln].strip():
                     # every identifier gets a value and the result is observed through the host; several assignments of
